@@ -284,7 +284,14 @@ def constants():
     return {f"cst.{k}": v for k, v in gen_constants.extract().items()}
 
 
+_SOURCE_OVERRIDE = None  # self-test only: the text read instead of pandora/criteria.py
+
+
 def load(func):
+    if _SOURCE_OVERRIDE is not None:
+        mod = ast.parse(_SOURCE_OVERRIDE)
+        check_module(mod)
+        return find_function(mod, func), _SOURCE_OVERRIDE
     mod = parse(SRC)
     check_module(mod)
     fn = find_function(mod, func)
@@ -982,6 +989,49 @@ REFUSED_STMTS = [
 ]
 
 
+# whole-function edits of criteria.py that must be refused: (builder, text to replace, replacement); skipped when the text
+# is not in the source any more
+REFUSED_EDITS = [
+    # seed C04-6: narrow counters wrap at 256 disparities — the allocation of the counters is pinned (dtype included)
+    ("right", 'b_2_7 = np.full((cv.sizes["row"], cv.sizes["col"]), 0)', 'b_2_7 = np.zeros((cv.sizes["row"], cv.sizes["col"]), dtype=np.uint8)'),
+    ("right", 'no_data_right = np.full((cv.sizes["row"], cv.sizes["col"]), 0)', 'no_data_right = np.full((cv.sizes["row"], cv.sizes["col"]), 0, dtype=np.uint8)'),
+    ("right", "        0,\n    ).data\n", "        0,\n    ).data.astype(np.uint8)\n"),
+    ("right", "for dsp in range(d_min, d_max + 1):", "for dsp in range(d_min, d_max):"),
+    ("right", "d_min, d_max = cv.coords[\"disp\"].data[[0, -1]].astype(int)", "d_max, d_min = cv.coords[\"disp\"].data[[0, -1]].astype(int)"),
+    ("right", "col_range = np.arange(cv.sizes[\"col\"])", "col_range = np.arange(1, cv.sizes[\"col\"])"),
+    ("right", "b_2_7[:, bit_1[0]] = 0", "b_2_7[:, bit_1[0]] -= 1"),
+    ("right", "+= dil[:, col_d[valid_index]]", "+= dil[:, col_range[valid_index]] + dil[:, col_d[valid_index]]"),
+    ("vm", "d_min, d_max = cv.coords[\"disp\"].data[[0, -1]]\n", "d_max, d_min = cv.coords[\"disp\"].data[[0, -1]]\n"),
+    ("vm", "np.full((cv.sizes[\"row\"], cv.sizes[\"col\"]), 0),", "np.full((cv.sizes[\"row\"], cv.sizes[\"col\"]), 0, dtype=np.uint8),"),
+    ("vm", "allocate_right_mask(cv, img_right, bit_1)", "allocate_right_mask(cv, img_left, bit_1)"),
+    ("vm", "col = cv.coords[\"col\"].data", "col = cv.coords[\"col\"].data + 1"),
+    ("left", "dil = binary_dilation_msk(img_left, cv.attrs[\"window_size\"])", "dil = binary_dilation_msk(img_left, 3)"),
+    ("miv", "missing_disparity_range = np.min(indices_nan, axis=2)", "missing_disparity_range = np.max(indices_nan, axis=2)"),
+    ("border", "data[:offset, :] =", "data[:offset:2, :] ="),
+]
+
+
+def refused_edit_problems() -> list:
+    global _SOURCE_OVERRIDE  # pylint: disable=global-statement
+    builders = {"right": allocate_right_kernels, "vm": validity_mask_kernel, "left": allocate_left_kernels,
+                "miv": mask_invalid_kernel, "border": mask_border_kernel}
+    text0 = read_source(SRC)
+    problems = []
+    try:
+        for which, old, new in REFUSED_EDITS:
+            if text0.count(old) != 1:
+                continue
+            _SOURCE_OVERRIDE = text0.replace(old, new)
+            try:
+                builders[which]()
+                problems.append(f"edit of criteria.py not refused: `{old.strip()}` -> `{new.strip()}`")
+            except Unsupported:
+                pass
+    finally:
+        _SOURCE_OVERRIDE = None
+    return problems
+
+
 def vm_walker_on(body_text, consts=None):
     """the validity_mask walker on a body given as text (the mask allocated to 0 first) -> Kernel"""
     consts = constants() if consts is None else consts
@@ -1012,7 +1062,7 @@ def selftest_problems() -> list:
     """-> list of messages (empty when the translator refuses what it must and reads what it accepts like CPython)"""
     import numpy as np  # only here: the accepted expressions are compared with numpy's own reading
 
-    problems = []
+    problems = refused_edit_problems()
     consts = constants()
     for e in REFUSED_EXPR:
         try:
